@@ -59,6 +59,11 @@ def evaluate(chk, pid, items):
         return j, val, out, dt
 
     mism, failed = [], None
+    # a trivial evaluation first: it makes vlib build the required .vo files once, before the shards start in parallel
+    val0, out0, _ = vlib.coq_eval("%s_alg_prime" % pid, REQ, "Definition M_def := mismatches [].\n")
+    if val0 is None or vlib.parse_nats(val0) != []:
+        chk.violation("corr_eval.txt", "the correspondence library does not build / evaluate:\n" + str(out0)[-3000:], no_input=True)
+        return None
     with ThreadPoolExecutor(max_workers=SHARDS) as ex:
         for j, val, out, dt in ex.map(one, range(len(shards))):
             chk.notes.append("alg shard %d: %d cases evaluated in Coq in %.1fs" % (j, len(shards[j]), dt))
